@@ -105,6 +105,9 @@ RULES = [
 
 def run(chk):
     chk.level = "proof"
+    from props import alg_forwarding
+    from cola.linalg.eig.power_iteration import PowerIteration as _PI
+    alg_forwarding.forwarding(chk, "C10", _PI)
     from props import backend_conformance
     backend_conformance.run(chk, "C10", names=('eig', 'eigh', 'argsort', 'sort', 'abs'))
     chk.trust("vcgen/idx.py: NumPy indexing primitives as index transformers, slice.indices contract")
